@@ -28,6 +28,7 @@ type caseRun struct {
 	c     *CaseDesc
 	lines []string
 	idOf  map[int32]int
+	genID map[int32]int // ids of the providers that generators replace themselves by
 	dumps []nject.VerifDump
 	quiet bool
 }
@@ -329,7 +330,7 @@ func (r *caseRun) buildCollection(name string) *nject.Collection {
 			i = j
 			continue
 		}
-		items = append(items, annotate(p, r.rawProvider(p)))
+		items = append(items, r.item(p))
 		i++
 	}
 	noisy := (uint64(r.c.Seed)/7)%2 == 0
@@ -376,7 +377,40 @@ func (r *caseRun) buildCollection(name string) *nject.Collection {
 			r.idOf[id] = ps[i].Idx
 		}
 	}
+	for id, idx := range r.genID {
+		r.idOf[id] = idx
+	}
 	return c
+}
+
+// isGenerator: the listed provider `id` (standing for p.Idx = idx) is a generator built by item()
+func (r *caseRun) isGenerator(id int32, idx int) bool {
+	for inner, i := range r.genID {
+		if i == idx && inner != id {
+			return true
+		}
+	}
+	return false
+}
+
+// item is what is listed for p: the annotated provider, or (p.Gen) a generator that replaces itself by it.
+func (r *caseRun) item(p *ProvDesc) any {
+	if !p.Gen {
+		return annotate(p, r.rawProvider(p))
+	}
+	q := p.clone()
+	q.Name, q.Replace, q.Before, q.After = "", "", "", ""
+	inner := nject.Provide(fmt.Sprintf("gen%d", p.Idx), annotate(q, r.rawProvider(p)))
+	if vp, ok := nject.VerifProviderOf(inner); ok {
+		if r.genID == nil {
+			r.genID = make(map[int32]int)
+		}
+		r.genID[vp.ID] = p.Idx
+	}
+	g := nject.GenerateFromInjectionChain(fmt.Sprintf("gen%d", p.Idx), func(_, _ nject.Collection) (nject.Provider, error) {
+		return inner, nil
+	})
+	return annotate(&ProvDesc{Name: p.Name, Replace: p.Replace, Before: p.Before, After: p.After, NonFinal: p.GenNF}, g)
 }
 
 func (r *caseRun) idxOf(vp nject.VerifProvider) int {
